@@ -194,6 +194,16 @@ func scatter(a *anchors, r *rep, fn, read *ssa.Function) {
 			r.Undecide("SYM-STRIDE", key, a.p.Pos(sites[0].st.St.Pos()), "the array is filled from more than one loop")
 			continue
 		}
+		condStore := false
+		for _, st := range sites {
+			if !everyIteration(st.st.St.Block(), st.ivs) {
+				condStore = true
+			}
+		}
+		if condStore {
+			r.Violate("SYM-STRIDE", key, a.p.Pos(sites[0].st.St.Pos()), "an element of the "+ro.name+" array is stored conditionally inside the record loop: some records can be skipped (one output per record, unconditionally)")
+			continue
+		}
 		res := sx.Cover(idx, sites[0].ivs, length)
 		if scatterHeader == nil {
 			scatterHeader = sites[0].ivs[0].Loop.Header
@@ -301,6 +311,21 @@ func scatter(a *anchors, r *rep, fn, read *ssa.Function) {
 			}
 		}
 	}
+}
+
+// everyIteration: block b (inside the loop nest ivs, outermost first) executes in
+// every iteration: it dominates the latches of its innermost loop, and each inner
+// loop's header dominates the latches of the loop around it.
+func everyIteration(b *ssa.BasicBlock, ivs []*sx.IV) bool {
+	for i := len(ivs) - 1; i >= 0; i-- {
+		for _, l := range ivs[i].Loop.Latch {
+			if !b.Dominates(l) {
+				return false
+			}
+		}
+		b = ivs[i].Loop.Header
+	}
+	return true
 }
 
 func normalVarOf(a *anchors) *types.Var {
